@@ -405,11 +405,12 @@ def partitions_of_path(ex, N, extra=()):
         s.add(z3.Not(z3.And(*cs)) if cs else z3.BoolVal(False))
     return out
 
-def name_of_value(v, N, vals, model):
-    """which template name a slot value denotes under the model: index, or 'F<k>' for an internally generated slot"""
+def name_of_value(v, N, vals, model, visible=None):
+    """which template name a slot value denotes under the model: index, or 'x<value>' for an internally generated slot.
+    Names the user writes only later (pattern slots) are not yet names at this step: an internal slot that such a name will coincide with is still internal"""
     x = model.eval(v, model_completion=True).as_long()
     for i, nv in enumerate(vals):
-        if nv == x: return i
+        if nv == x and (visible is None or i in visible): return i
     return 'x%d' % x
 
 def norm_fresh(v):
@@ -422,18 +423,21 @@ def concretize(run, ex):
     N = run.N
     for pat, vals, model in partitions_of_path(ex, N):
         steps = []
-        for s in run.snaps:
+        for si, s in enumerate(run.snaps):
+            vis = {i for i in range(len(N)) if run.t.late.get(i, -1) < si}      # step si = after op si-1; a late name written by op k is visible from step k+1
+            _nov = name_of_value
+            def name_of_value_(v, N_, vals_, model_, vis=vis): return _nov(v, N_, vals_, model_, vis)
             st = {k: v for k, v in s.items() if k not in ('canon',)}
             st['op'] = list(s['op'])
             st['canon'] = [None if c is None else {'id': c['id'], 'idem': c['idem'], 'nslots': len(c['vals']),
-                            'vals': sorted(str(name_of_value(v, N, vals, model)) for v in c['vals']),
-                            'map': sorted((str(name_of_value(k, N, vals, model)), str(name_of_value(v, N, vals, model))) for k, v in zip(c['keys'], c['vals'])),
-                            'hvals': sorted(str(name_of_value(v, N, vals, model)) for v in c['hvals'])} for c in s['canon']]
+                            'vals': sorted(str(name_of_value_(v, N, vals, model)) for v in c['vals']),
+                            'map': sorted((str(name_of_value_(k, N, vals, model)), str(name_of_value_(v, N, vals, model))) for k, v in zip(c['keys'], c['vals'])),
+                            'hvals': sorted(str(name_of_value_(v, N, vals, model)) for v in c['hvals'])} for c in s['canon']]
             if 'extract' in st:
-                def dt(t): return [t[0]] + [dt(a) if isinstance(a, list) else norm_fresh(str(name_of_value(a, N, vals, model))) for a in t[1:]]
+                def dt(t): return [t[0]] + [dt(a) if isinstance(a, list) else norm_fresh(str(name_of_value_(a, N, vals, model))) for a in t[1:]]
                 st['extract'] = dict(st['extract']); st['extract']['term'] = dt(st['extract']['term'])
             if 'ematch' in st:
-                def dh(h): return None if h is None else {'id': h['id'], 'vals': sorted(norm_fresh(str(name_of_value(v, N, vals, model))) for v in h['vals'])}
+                def dh(h): return None if h is None else {'id': h['id'], 'vals': sorted(norm_fresh(str(name_of_value_(v, N, vals, model))) for v in h['vals'])}
                 st['ematch'] = {'unchanged': st['ematch']['unchanged'], 'matches': sorted(({'bound': mt['bound'], 'found': mt['found'], 'inst': dh(mt['inst']), 'binds': {k: dh(v) for k, v in mt['binds'].items()}} for mt in st['ematch']['matches']), key=lambda x: json.dumps(x, sort_keys=True))}
             st['classes'] = {str(k): v for k, v in s['classes'].items()}
             steps.append(st)
